@@ -53,7 +53,7 @@ def mutating_sequence_methods(p) -> dict[str, bool]:
     return out
 
 
-def check(ctx: Ctx) -> None:
+def _main_check(ctx: Ctx) -> None:
     p = ctx.p
     fi = p.func(FN)
     ctx.analysed(fi)
@@ -153,8 +153,18 @@ def check(ctx: Ctx) -> None:
               construct="default signature is not 4/4", message=f"{num}={consts.get(num)} {den}={consts.get(den)}", file=fi.file, node=fi.node)
     nz = Normaliser()
     inner = length.value
+    def _is_int_expr(e):
+        if isinstance(e, ast.Call) and isinstance(e.func, ast.Name) and e.func.id in ("int", "round") and len(e.args) == 1:
+            return True
+        if isinstance(e, ast.Constant) and isinstance(e.value, int):
+            return True
+        if isinstance(e, ast.BinOp) and isinstance(e.op, (ast.Mult, ast.Add, ast.Sub, ast.FloorDiv)):
+            return _is_int_expr(e.left) and _is_int_expr(e.right)
+        return False
     wrapped = isinstance(inner, ast.Call) and isinstance(inner.func, ast.Name) and inner.func.id == "int"
-    ctx.check(wrapped, "LEN", f"{FN}: bar length wrapped in int()", function=FN, construct="bar length is not converted to int",
+    if not wrapped and _is_int_expr(inner):
+        wrapped = None          # an integer expression of another shape: LEN's formula rule judges it
+    ctx.check(wrapped is not False, "LEN", f"{FN}: bar length is an integer expression", function=FN, construct="bar length is not converted to int",
               message=short(length), file=fi.file, node=length)
     core = inner.args[0] if wrapped and inner.args else inner
     want = nz.norm(ast.parse(f"PPQN * 4 * {num} / {den}", mode="eval").body)
@@ -413,3 +423,9 @@ def check(ctx: Ctx) -> None:
         recv = call_method(c)[0]
         ctx.check(isinstance(recv, ast.Name) and recv.id not in input_vars, "SHORTEN", f"{FN}: re-quantisation applies to the piece, not the input",
                   function=FN, construct="re-quantisation applied to an input sequence", message="", file=fi.file, node=c)
+
+
+def check(ctx: Ctx) -> None:
+    _main_check(ctx)
+    from .common import view_deps
+    view_deps(ctx)
